@@ -217,6 +217,61 @@ def handler_placement(out):
     return n
 
 
+
+def mapping_handlers_history(out):
+    """dict-form custom handlers: the table of the CURRENT call decides, whatever an earlier call with an equal-looking or since
+    modified table memoised"""
+    import pane
+    from pane.convert import make_converter
+    from pane.converters import Converter, LiteralConverter
+
+    class Times(Converter):
+        def __init__(self, k):
+            self.k = k
+
+        def expected(self, plural=False):
+            return 'an int'
+
+        def try_convert(self, val):
+            return val * self.k
+
+        def collect_errors(self, val):
+            return None
+
+        def into_data(self, val):
+            return val * self.k
+
+    class Pt(pane.PaneBase):
+        x: int
+        y: t.List[int] = pane.field(default_factory=list)
+    n = 0
+    # (a) the same dict object, a value replaced in place between the calls
+    table = {int: Times(2)}
+    first = (pane.from_data([1, 2], t.List[int], custom=table), pane.from_data({'x': 1, 'y': [2]}, Pt, custom=table), pane.into_data([1], t.List[int], custom=table))
+    table[int] = Times(10)
+    second = (pane.from_data([1, 2], t.List[int], custom=table), pane.from_data({'x': 1, 'y': [2]}, Pt, custom=table), pane.into_data([1], t.List[int], custom=table))
+    want = ([10, 20], Pt(10, [20]), [10])
+    n += 3
+    if second != want:
+        out.violation('C10:mapping-handlers:stale-after-mutation', f'custom={{int: Times(10)}} after an earlier call with the same dict holding Times(2): got {second!r}, '
+                      f'expected {want!r} (first call gave {first!r})', {'got': repr(second)})
+    # (b) two tables whose converters compare == but behave differently
+    n += 2
+    try:
+        a = pane.from_data(1, int, custom={int: LiteralConverter((1,))})
+        b = pane.from_data(True, int, custom={int: LiteralConverter((True,))})
+        if a != 1 or b is not True:
+            out.violation('C10:mapping-handlers:equal-tables-conflated', f'got {a!r}, {b!r}', {})
+    except pane.ConvertError as e:
+        out.violation('C10:mapping-handlers:equal-tables-conflated', f'from_data(True, int, custom={{int: Literal[True]}}) after a call with {{int: Literal[1]}} failed: {str(e)[:150]}', {})
+    # (c) fresh dicts per call with different converters
+    n += 2
+    r = [pane.from_data(3, int, custom={int: Times(k)}) for k in (2, 5, 2)]
+    if r != [6, 15, 6]:
+        out.violation('C10:mapping-handlers:fresh-tables', f'fresh handler tables per call gave {r!r}, expected [6, 15, 6]', {})
+    return n
+
+
 def threads_run(rng, out):
     """several threads convert concurrently; results must equal the sequential ones"""
     from pane.convert import make_converter, from_data
@@ -323,6 +378,7 @@ def run(ctx, out):
         n += history_run(rng, 120 if not thorough else 300, out, 'history')
     n += order_independence(rng, out)
     n += handler_placement(out)
+    n += mapping_handlers_history(out)
     n += threads_run(rng, out)
     out.evaluations += n
     out.extra['converter_lookups_compared'] = n
